@@ -2,6 +2,7 @@ package main
 
 import (
 	"fmt"
+	"os"
 	"go/token"
 	"go/types"
 	"sort"
@@ -79,13 +80,14 @@ type pathEnum struct {
 	inputMode     bool
 	inputModeDone bool
 	// inlining state
-	trail     []trailEntry
-	headers   map[*ssa.Function]map[*ssa.BasicBlock]bool
-	decided   map[ssa.Value]bool // stripped condition value -> its value on the current path
-	escaped   map[*ssa.Function]bool
-	inlined   map[*ssa.Function]bool
-	imprecise bool
-	spec      *pathSpec // nil: the node-function classifiers
+	trail      []trailEntry
+	headers    map[*ssa.Function]map[*ssa.BasicBlock]bool
+	decided    map[ssa.Value]bool // stripped condition value -> its value on the current path
+	decidedNil map[ssa.Value]bool // value -> whether it is non-nil on the current path (by a test made on the path)
+	escaped    map[*ssa.Function]bool
+	inlined    map[*ssa.Function]bool
+	imprecise  bool
+	spec       *pathSpec // nil: the node-function classifiers
 }
 
 // zeroSubjectClass: memory class of the value an absence predicate is applied to.
@@ -662,6 +664,23 @@ func (pe *pathEnum) evalCond(v ssa.Value) (val bool, known bool) {
 	return false, false
 }
 
+// nilCondKey: a stripped condition that compares a value with nil: the value, and whether the comparison is `==`
+// (the base form is `x != nil`).
+func nilCondKey(c ssa.Value) (ssa.Value, bool, bool) {
+	bo, ok := c.(*ssa.BinOp)
+	if !ok || (bo.Op != token.EQL && bo.Op != token.NEQ) {
+		return nil, false, false
+	}
+	a, b := cv(bo.X), cv(bo.Y)
+	switch {
+	case isNilConst(b) && !isNilConst(a):
+		return a, bo.Op == token.EQL, true
+	case isNilConst(a) && !isNilConst(b):
+		return b, bo.Op == token.EQL, true
+	}
+	return nil, false, false
+}
+
 // condKey: the identity of a pure condition value, with negations stripped.
 func condKey(v ssa.Value) (ssa.Value, bool) {
 	neg := false
@@ -727,6 +746,9 @@ func (P *Prog) relevantFn(fn *ssa.Function) bool {
 		return v
 	}
 	P.relevantMemo[fn] = false // recursion guard
+	if P.pureValueHelper(fn) {
+		return false
+	}
 	res := false
 	ca := P.sharedCatchAnalysis()
 	withoutSubst(func() {
@@ -770,6 +792,73 @@ func (P *Prog) relevantFn(fn *ssa.Function) bool {
 	})
 	P.relevantMemo[fn] = res
 	return res
+}
+
+// pureValueHelper: fn computes a value from reflect.Values alone (a recursive deep copy, a converter): it takes no
+// context, interface or function, calls nothing but reflect and itself, stores nowhere, and every reflect write it makes
+// goes into memory it allocated itself with reflect.MakeSlice / MakeMap / New. Its branches (Kind switches, IsNil
+// guards) decide nothing about the node and its calls are not entered on the node's decision paths.
+func (P *Prog) pureValueHelper(fn *ssa.Function) bool {
+	if fn.Blocks == nil || fn.Parent() != nil || len(fn.Params) == 0 {
+		return false
+	}
+	for _, p := range fn.Params {
+		if typeStr(p.Type()) != "reflect.Value" {
+			return false
+		}
+	}
+	ok := true
+	eachInstr(fn, func(_ *ssa.BasicBlock, _ int, in ssa.Instruction) {
+		if !ok {
+			return
+		}
+		switch in.(type) {
+		case *ssa.Store, *ssa.MapUpdate, *ssa.Send, *ssa.Go, *ssa.Defer, *ssa.Panic:
+			if st, isSt := in.(*ssa.Store); isSt {
+				if al, isAl := st.Addr.(*ssa.Alloc); isAl && al.Parent() == fn {
+					return // a spilled local
+				}
+			}
+			ok = false
+			return
+		}
+		ci := callOf(in)
+		if ci == nil {
+			return
+		}
+		switch {
+		case ci.builtin != "":
+		case ci.static == fn:
+		case ci.invoke != nil && ci.invoke.Pkg() != nil && ci.invoke.Pkg().Path() == "reflect": // a method of reflect.Type
+		case ci.static != nil && isPkgFunc(ci.static, "reflect"):
+			if _, isW := reflectWriters[ci.static.Name()]; isW {
+				fresh := false
+				for _, rt := range P.rootsOf(ci.args()[0]) {
+					if c2, isCall := rt.v.(*ssa.Call); isCall && callOf(c2).static != nil && isPkgFunc(callOf(c2).static, "reflect") {
+						switch callOf(c2).static.Name() {
+						case "MakeSlice", "New", "MakeMap", "MakeMapWithSize", "Zero":
+							fresh = true
+							continue
+						}
+					}
+					fresh = false
+					break
+				}
+				if !fresh {
+					if os.Getenv("ZOGCHECK_DEBUG") != "" {
+						fmt.Println("DEBUG pure: not fresh", in, P.rootsOf(ci.args()[0]))
+					}
+					ok = false
+				}
+			}
+		default:
+			if os.Getenv("ZOGCHECK_DEBUG") != "" {
+				fmt.Println("DEBUG pure: call", in)
+			}
+			ok = false
+		}
+	})
+	return ok
 }
 
 // inlinable: the call is followed into its callee.
@@ -982,6 +1071,21 @@ func (pe *pathEnum) walk(stack []inlFrame, b *ssa.BasicBlock, from int, items []
 			pe.enter(stack, b, b.Succs[k], items, depth+1)
 			return
 		}
+		// the same nil test of the same value made by another instruction (a helper tests `err != nil` and returns err;
+		// its caller tests the result again)
+		nilOf, nilNeg, isNilCmp := nilCondKey(key)
+		if isNilCmp {
+			if prev, seen := pe.decidedNil[nilOf]; seen {
+				// stripped cond = (nilOf != nil) XOR nilNeg; cond = stripped XOR neg
+				val := (prev != nilNeg) != neg
+				k := 0
+				if !val {
+					k = 1
+				}
+				pe.enter(stack, b, b.Succs[k], items, depth+1)
+				return
+			}
+		}
 		var kind, tv, fv string
 		if pe.spec != nil {
 			kind, tv, fv = pe.spec.cond(t)
@@ -1008,12 +1112,18 @@ func (pe *pathEnum) walk(stack []inlFrame, b *ssa.BasicBlock, from int, items []
 			}
 			// the value of the stripped condition on this side
 			pe.decided[key] = (k == 0) != neg
+			if isNilCmp {
+				pe.decidedNil[nilOf] = ((k == 0) != neg) != nilNeg
+			}
 			atom := pathItem{kind: kind, val: v, in: t}
 			if pe.spec != nil && pe.spec.condAux != nil && kind != "COND" {
 				atom.aux = pe.spec.condAux(t)
 			}
 			pe.enter(stack, b, b.Succs[k], append(append([]pathItem{}, items...), atom), depth+1)
 			delete(pe.decided, key)
+			if isNilCmp {
+				delete(pe.decidedNil, nilOf)
+			}
 			pe.undoTo(mark)
 			pe.escaped = savedEsc
 		}
@@ -1069,7 +1179,7 @@ func (P *Prog) enumPaths(fn *ssa.Function, env map[ssa.Value]ssa.Value) *pathRes
 
 // enumPathsSpec enumerates the decision paths of fn with the given classifiers.
 func (P *Prog) enumPathsSpec(fn *ssa.Function, env map[ssa.Value]ssa.Value, spec *pathSpec) *pathResult {
-	pe := &pathEnum{P: P, fn: fn, ca: P.sharedCatchAnalysis(), decided: map[ssa.Value]bool{}, escaped: map[*ssa.Function]bool{}, inlined: map[*ssa.Function]bool{}, spec: spec}
+	pe := &pathEnum{P: P, fn: fn, ca: P.sharedCatchAnalysis(), decided: map[ssa.Value]bool{}, decidedNil: map[ssa.Value]bool{}, escaped: map[*ssa.Function]bool{}, inlined: map[*ssa.Function]bool{}, spec: spec}
 	saved := substEnv
 	substEnv = map[ssa.Value]ssa.Value{}
 	for k, v := range env {
